@@ -10,6 +10,7 @@ import (
 	"fmt"
 	"github.com/xelaj/mtproto/internal/encoding/tl"
 	rmath "github.com/xelaj/mtproto/internal/math"
+	"github.com/xelaj/mtproto/zverif/freepass"
 	"github.com/xelaj/mtproto/zverif/sched"
 	"math/big"
 	mrand "math/rand"
@@ -496,5 +497,6 @@ func main() {
 	run.Set("compared_with_a_second_process", crossed)
 	firstUse(run)
 	run.Sample(map[string]any{"scenario": "key-exchange", "environment": "math/rand seeded with 1, clock pinned to T0", "compared": "nonce, new_nonce, g_b of run 0 vs run 1"})
+	freepass.Run(run, run.ID, freepass.Rounds(run))
 	run.Finish()
 }
